@@ -5,6 +5,7 @@
 #include "gates.hpp"
 #include "iokinds.hpp"
 #include <thread>
+#include <fstream>
 #include <atomic>
 VH_MAIN_GLOBALS
 using namespace vh;
@@ -97,6 +98,18 @@ static void iokinds_pass(int reps) {
         { FILE *f = fmemopen((void *) s2.data(), s2.size(), "rb"); HP im = k.imp_f(f, *o); fclose(f); std::string e = k.cmp(*o, *im); if (!e.empty() && e.rfind("real:", 0) != 0) out.viol("memory:io-roundtrip:" + k.name, J().s("field", e)); }
         out.evaluations += 2;
         out.cell("io:" + k.name);
+        // write-side faults: the destination is already in an error state, or runs into one (a file that could not be opened, a
+        // full device, a stream with failbit set). Nothing may leak or be touched out of bounds; what ends up in the stream is
+        // not the library's business any more
+        if (rep == 0) {
+            VH_OP("io-write-fault:%s", k.name.c_str());
+            { std::ofstream of("/nonexistent-directory/x.key", std::ios::binary); k.exp_s(of, *o); k.exp_s(of, *o); }
+            { std::ostringstream os; os.setstate(std::ios::failbit); k.exp_s(os, *o); os.clear(); os.setstate(std::ios::badbit); k.exp_s(os, *o); }
+            { FILE *f = fopen("/dev/full", "wb"); if (f) { setvbuf(f, nullptr, _IONBF, 0); k.exp_f(f, *o); k.exp_f(f, *o); k.exp_f(f, *o); fclose(f); } }
+            { int pfd[2]; if (pipe(pfd) == 0) { close(pfd[0]); signal(SIGPIPE, SIG_IGN); FILE *f = fdopen(pfd[1], "wb"); if (f) { k.exp_f(f, *o); k.exp_f(f, *o); fclose(f); } else close(pfd[1]); } }
+            out.evaluations += 4;
+            out.cell("io-write-fault:" + k.name + ":unopened-ofstream,failed-ostringstream,/dev/full,closed-pipe");
+        }
     }
 }
 
